@@ -137,6 +137,18 @@ CHECKS = {
         technique="TLA+ acceptance semantics; TLC-generated conforming and mutated inputs replayed into typed builders",
         engine="tlc+vh",
     ),
+    "C11": dict(
+        category="model_checking",
+        text="Immutable.tla has finished nodes with frozen values and every library operation that takes a finished node or "
+             "its producing builder as actions (derived nodes get their specified values); TLC generates every history "
+             "inside the bounds. The specification has no action that edits a finished value, so the content is in the "
+             "binding: the harness performs each history on real nodes and after every single step re-reads every finished "
+             "node twice in full and compares with the value at creation.",
+        design_ref="DESIGN.md section 4, C11",
+        note="Histories of <= 4 operations over <= 3 nodes; trusted: TLC, harness/model observation checker.",
+        technique="TLA+ history model; TLC-generated histories replayed with a full double re-read of every node after every step",
+        engine="tlc+vh",
+    ),
     "C12": dict(
         category="model_checking",
         text="Assembler.tla is the builder/assembler protocol as a state machine (one action per public call, the two "
